@@ -436,12 +436,21 @@ def invoke (cfg : Cfg) (k : Option Nat) (t : Tree) : InvRes :=
   else if doneB k [Action.mkdirOut] then invokeCore cfg (restB k [Action.mkdirOut]) (Action.mkdirOut.apply t)
   else ⟨t, [], false⟩
 
-/-- any number of calls, each with its own interruption point; stops when `main`'s loop ends by itself -/
-def runSched (cfg : Cfg) : List (Option Nat) → Tree → List Event → Tree × List Event
-  | [], t, tr => (t, tr)
+/-- any number of calls, each with its own interruption point; stops when `main`'s loop ends by itself
+    (`halted`); `tr` is the trace so far -/
+def runSched (cfg : Cfg) : List (Option Nat) → Tree → List Event → InvRes
+  | [], t, tr => ⟨t, tr, false⟩
   | k :: ks, t, tr =>
     let r := invoke cfg k t
-    if r.halted then (r.tree, tr ++ r.events) else runSched cfg ks r.tree (tr ++ r.events)
+    if r.halted then ⟨r.tree, tr ++ r.events, true⟩ else runSched cfg ks r.tree (tr ++ r.events)
+
+/-- several process runs one after the other, each with its own schedule (prospective mode: `main`'s loop ends
+    after the last plate of an iteration and the user starts the script again for the next iteration) -/
+def runProcs (cfg : Cfg) : List (List (Option Nat)) → Tree → List Event → Tree × List Event
+  | [], t, tr => (t, tr)
+  | s :: ss, t, tr =>
+    let r := runSched cfg s t tr
+    runProcs cfg ss r.tree r.events
 
 def launchedOf (tr : List Event) : List Launch :=
   tr.filterMap (fun e => match e with | .launched l => some l | _ => none)
